@@ -1,6 +1,7 @@
 package main
 
 import (
+	"go/ast"
 	"fmt"
 	"go/token"
 	"go/types"
@@ -120,6 +121,46 @@ func (pc *pCtx) p8Frames(only string) {
 			}
 			if only != "" && !strings.Contains(name, only) {
 				continue
+			}
+			// (d) a plugin operator that hands a library function to Map / MapErr unchanged lifts the function it is named
+			// after (rostrconv.Itoa lifts strconv.Itoa)
+			if p != roPath && fn.Parent() == nil && ast.IsExported(fn.Name()) {
+				for _, b := range fn.Blocks {
+					for _, ins := range b.Instrs {
+						call, ok := ins.(*ssa.Call)
+						if !ok {
+							continue
+						}
+						cf := call.Common().StaticCallee()
+						if cf == nil || pkgPathOf(cf) != roPath || !(strings.HasPrefix(cf.Name(), "Map") || strings.HasPrefix(cf.Name(), "Filter")) {
+							continue
+						}
+						for _, a := range call.Common().Args {
+							// a lambda around exactly one library call: the wrapped function carries the operator's name
+							// (FilterMatch / Regexp.Match, Decode / Encoding.DecodeString, ParseUint64 / ParseUint)
+							if mc, ok := a.(*ssa.MakeClosure); ok {
+								a = mc.Fn
+							}
+							if lam, ok := a.(*ssa.Function); ok && lam.Parent() == fn {
+								if wc, _ := singleWrappedCall(lam); wc != nil {
+									g := wc.Common().StaticCallee()
+									fnm := strings.TrimPrefix(fn.Name(), "Filter")
+									pc.add([]string{"C18"}, fmt.Sprintf("P8/%s/wraps-the-function-it-is-named-after", name),
+										"the library function a plugin operator wraps carries the operator's name (one name contains the other)", strings.Contains(g.Name(), fnm) || strings.Contains(fn.Name(), g.Name()),
+										fmt.Sprintf("%s wraps %s.%s", fn.Name(), pkgPathOf(g), g.Name()), pc.pos(wc.Pos()))
+								}
+								continue
+							}
+							g, ok := a.(*ssa.Function)
+							if !ok || g.Pkg == nil || isRoPkg(pkgPathOf(g)) {
+								continue
+							}
+							pc.add([]string{"C18"}, fmt.Sprintf("P8/%s/lifts-the-function-it-is-named-after", name),
+								"a plugin operator that passes a library function to Map / MapErr unchanged passes the function of its own name", g.Name() == fn.Name(),
+								fmt.Sprintf("%s lifts %s.%s", fn.Name(), pkgPathOf(g), g.Name()), pc.pos(ins.Pos()))
+						}
+					}
+				}
 			}
 			// (c) a byte is not a character: a unicode.* classification applied to rune(b) of one byte of a byte slice
 			// treats every byte of a multi-byte character as a character of its own (the byte flavour of a text helper
